@@ -491,6 +491,9 @@ func c11Run(c c11Case) (v vVerdict) {
 				continue // (after an accepted giant record length a projector matrix would not fit into memory)
 			}
 			nb := 2
+			if st.Kind == "valid3" { // another number of bases than before: while OFF files are written, accepted or refused - never fatal
+				nb = 3
+			}
 			pbo := &ProjectorsBasisObject{ChannelIndex: st.Src, ModelDescription: "verif"}
 			prow, pcol, brow, bcol := nb, e.nsamp, e.nsamp, nb
 			switch st.Kind {
@@ -822,7 +825,7 @@ func c11GenStep(t *rapid.T, c *c11Case) c11Step {
 		return c11Step{Op: "lengths", Nsamp: rapid.SampledFrom([]int{c.Nsamp, 20, 64, 0, -5, 4, 3, 150, 1 << 30, 1<<31 + 7, 1 << 62}).Draw(t, "ns"), Npre: rapid.SampledFrom([]int{c.Npre, 3, 10, 0, -1, 2, 63, 200, 1 << 62, 1<<63 - 1}).Draw(t, "np")}
 	case k < 8:
 		return c11Step{Op: "proj", Src: idx("pchan"), Flag: rapid.Bool().Draw(t, "which"),
-			Kind: rapid.SampledFrom([]string{"valid", "valid", "wrongshape", "mismatched", "truncated", "short", "empty", "hugeheader", "garbage", "badbase64"}).Draw(t, "pkind")}
+			Kind: rapid.SampledFrom([]string{"valid", "valid", "valid3", "valid3", "wrongshape", "mismatched", "truncated", "short", "empty", "hugeheader", "garbage", "badbase64"}).Draw(t, "pkind")}
 	case k < 12:
 		return c11Step{Op: "wc", Request: rapid.SampledFrom([]string{"START", "START", "Stop", "PAUSE", "UNPAUSE", "UNPAUSE lbl", "UNPAUSEx", "", "FOO"}).Draw(t, "wcreq"),
 			Types: rapid.IntRange(0, 7).Draw(t, "types"), Path: rapid.SampledFrom([]int{0, 0, 0, 1, 2, 3}).Draw(t, "path")}
@@ -888,7 +891,14 @@ func c11Gen(t *rapid.T) c11Case {
 	}
 	some("before", 0, 3)
 	c.Steps = append(c.Steps, c11Step{Op: "start"})
-	if rapid.IntRange(0, 2).Draw(t, "writing") != 0 {
+	if c.Source != "erroring" && rapid.IntRange(0, 7).Draw(t, "offsession") == 0 {
+		// a session writing OFF files: projectors on a channel, records flowing, then another projector request for that channel
+		ch := rapid.IntRange(0, c.Nchan-1).Draw(t, "offchan")
+		auto := vTrigCfg{Auto: true, AutoDelayNs: 2000000}
+		c.Steps = append(c.Steps, c11Step{Op: "proj", Src: ch, Kind: "valid"}, c11Step{Op: "trig", Chans: []int{ch}, Trig: &auto},
+			c11Step{Op: "wc", Request: "START", Types: rapid.SampledFrom([]int{4, 5, 7}).Draw(t, "offtypes")}, c11Step{Op: "wait", N: 7},
+			c11Step{Op: "proj", Src: ch, Kind: rapid.SampledFrom([]string{"valid3", "valid3", "valid"}).Draw(t, "reproj")}, c11Step{Op: "wait", N: 7}, c11Step{Op: "wait", N: 7})
+	} else if rapid.IntRange(0, 2).Draw(t, "writing") != 0 {
 		c.Steps = append(c.Steps, c11Step{Op: "wc", Request: "START", Types: 1})
 	}
 	some("running", 2, 14)
